@@ -49,7 +49,8 @@ def item_to_harness(it):
     raise ValueError('unknown model item %r' % (it,))
 
 
-CALLS = {"send_text": ["send_text", "x"], "send_ping": ["send_ping", []], "close": ["close"]}
+LONG_REASON = ''.join(chr(97 + (i % 26)) for i in range(1, 125))          # LongReason of spec/Lomond.tla: 124 bytes, one too many
+CALLS = {"send_text": ["send_text", "x"], "send_ping": ["send_ping", []], "close": ["close"], "badclose": ["close", 1000, LONG_REASON]}
 
 
 def script_to_scenario(script, cfg, naddr=1, mech='break'):
